@@ -149,6 +149,19 @@ func bodies() []body {
 		e.MaxIterations = 3
 		return e, nil
 	}, dataPos, false))
+	// with log-weights the objective takes its weighted branch (a further per-thread temporary)
+	bs = append(bs, scalarBody("scalar.Numeric(Gamma)", func() (ScalarEstimator, error) {
+		d, err := scalarDistribution.NewGammaDistribution(NewReal64(2), NewReal64(1))
+		if err != nil {
+			return nil, err
+		}
+		e, err := scalarEstimator.NewNumericEstimator(d)
+		if err != nil {
+			return nil, err
+		}
+		e.MaxIterations = 3
+		return e, nil
+	}, dataPos, true))
 
 	// vector estimators over scalar ones
 	bs = append(bs, body{name: "vector.ScalarIid(Normal)", nested: true, sizes: stdSizes, run: func(n int, p tp.ThreadPool) ([]float64, error) {
@@ -441,6 +454,56 @@ func bodies() []body {
 			}
 			return append(params(est.GetParameters()), liks...), nil
 		}})
+
+	// components obtained from ONE prototype through the public clone methods (instead of
+	// being constructed separately): each must own its estimators
+	for _, how := range []string{"Clone", "CloneVectorEstimator"} {
+		how := how
+		bs = append(bs, body{name: "vector.Mixture[ScalarIid(Normal) + its " + how + "();steps=2]", nested: true,
+			sizes: func(T int) []int { return []int{T + 2} },
+			run: func(n int, p tp.ThreadPool) ([]float64, error) {
+				e0, err := scalarEstimator.NewNormalEstimator(-1, 1, 0.125)
+				if err != nil {
+					return nil, err
+				}
+				a, err := vectorEstimator.NewScalarIid(e0, -1)
+				if err != nil {
+					return nil, err
+				}
+				var b VectorEstimator
+				if how == "Clone" {
+					b = a.Clone()
+				} else {
+					b = a.CloneVectorEstimator()
+				}
+				if err := b.SetParameters(NewDenseFloat64Vector([]float64{2, 1})); err != nil {
+					return nil, err
+				}
+				var liks []float64
+				hook := generic.EmHook{Value: func(m generic.BasicMixture, i int, l, eps float64) {
+					if !math.IsNaN(l) {
+						liks = append(liks, l)
+					}
+				}}
+				e, err := vectorEstimator.NewMixtureEstimator([]float64{0.5, 0.5}, []VectorEstimator{a, b}, 1e-8, 2, hook)
+				if err != nil {
+					return nil, err
+				}
+				xs := []ConstVector{}
+				d := dataReal(11)
+				for i := 0; i < n; i++ {
+					xs = append(xs, NewDenseFloat64Vector([]float64{d[i], d[(i+3)%11]}))
+				}
+				if err := twice(p, func(q tp.ThreadPool) error { return e.EstimateOnData(xs, nil, q) }); err != nil {
+					return nil, err
+				}
+				est, err := e.GetEstimate()
+				if err != nil {
+					return nil, err
+				}
+				return append(params(est.GetParameters()), liks...), nil
+			}})
+	}
 
 	// matrix HMM over VectorId(ScalarId...) emissions
 	bs = append(bs, body{name: "matrix.Hmm[VectorId(ScalarId(Categorical));seqs=2;steps=1]", nested: true,
